@@ -107,6 +107,12 @@ def check_cnt(case):
             fvol = float(prec.nucleation.volumeFactor) / (4 * math.pi / 3)
             if not math.isclose(Gc[i], g_sphere * fvol, rel_tol=1e-6, abs_tol=1e-12 * g_sphere):
                 out.fail("gcrit_not_scaled_sphere", "Gcrit=%r, spherical barrier x volume factor ratio = %r at %s" % (Gc[i], g_sphere * fvol, tag))
+        else:
+            # clamped radius: the sphere's barrier at that radius is (4 pi/3) gamma Rcrit^2 (bulk expression); other sites scale it by the volume-factor ratio
+            fvol = float(prec.nucleation.volumeFactor) / (4 * math.pi / 3)
+            g_cl = 4 * math.pi / 3 * case["gamma"] * Rc[i] ** 2 * fvol
+            if np.isfinite(Gc[i]) and not math.isclose(Gc[i], g_cl, rel_tol=1e-6):
+                out.fail("gcrit_not_scaled_sphere", "clamped radius: Gcrit=%r, spherical barrier at that radius x volume factor ratio = %r at %s" % (Gc[i], g_cl, tag), clamped=True, dG=float(dG), gb=gb, quantity="Gcrit")
     # scalar == array element
     j = case["pick"] % len(dGs)
     Rs, Gs = nf.nucleationBarrier(float(dGs[j]), prec)
